@@ -367,9 +367,24 @@ func baseTerms(t *T, out map[string]*T) {
 	case "conv", "un":
 		baseTerms(t.Args[0], out)
 		return
+	case "index":
+		// a lookup in a constant table depends on its key only
+		if len(t.Args) == 2 && tableOfTerm(t.Args[0]) != nil {
+			baseTerms(t.Args[1], out)
+			return
+		}
+	case "extract":
+		if len(t.Args) == 1 && t.Args[0].K == "index" && len(t.Args[0].Args) == 2 && tableOfTerm(t.Args[0].Args[0]) != nil {
+			baseTerms(t.Args[0].Args[1], out)
+			return
+		}
 	}
 	out[t.String()] = t
 }
+
+// tableAsg: while scalarTable asks a leaf function to describe a path, the representative the row is
+// built for (leaves that read a constant lookup table depend on it).
+var tableAsg map[string]*big.Int
 
 func collectConsts(t *T, out map[string]*big.Int) {
 	if t.K == "const" {
@@ -377,6 +392,15 @@ func collectConsts(t *T, out map[string]*big.Int) {
 			out[v.String()] = v
 		}
 		return
+	}
+	if t.K == "index" && len(t.Args) == 2 {
+		// the listed keys of a constant table are decision points like compared constants
+		if tab := tableOfTerm(t.Args[0]); tab != nil {
+			for k := range tab.vals {
+				v := big.NewInt(k)
+				out[v.String()] = v
+			}
+		}
 	}
 	for _, a := range t.Args {
 		collectConsts(a, out)
@@ -449,6 +473,8 @@ func scalarTable(paths []*DPath, base string, typ types.Type, extraConsts []*big
 	var rows []tableRow
 	for _, rep := range representatives(typ, consts) {
 		asg := map[string]*big.Int{base: rep}
+		tableAsg = asg
+		defer func() { tableAsg = nil }()
 		var hit []*DPath
 		for _, p := range paths {
 			ok, err := pathHolds(p, asg)
